@@ -17,9 +17,9 @@ SPEC = {
     ],
     "jobs": [
         {"name": "idl", "harness": "c15_idl_pfc", "srcs": _SRCS, "flavour": "asan", "mode": "idl",
-         "cases": {"quick": 240000, "thorough": 24000000}, "budget": 20},
+         "cases": {"quick": 1200000, "thorough": 48000000}, "budget": 20},
         {"name": "pfc", "harness": "c15_idl_pfc", "srcs": _SRCS, "flavour": "asan", "mode": "pfc",
-         "cases": {"quick": 80000, "thorough": 8000000}, "budget": 20},
+         "cases": {"quick": 640000, "thorough": 24000000}, "budget": 20},
     ],
     "min_distinct": 300,
     "min_counters": {
